@@ -286,6 +286,64 @@ def run(eng: Engine, ck: Check):
     ok = len(st) == 1 and const(st[0][1]) is False and bool(calls_on(puf.node, 'request_management_cycle'))
     ck.ob('R-C04-RETRY', puf, puf.node, 'PeerUploadFailed clears remotely_queued and requests a management cycle', ok,
           f'{[unparse(s) for s, _ in st]}', construct='upload failed -> requeue')
+    transfer_timeout_rule(eng, ck)
+
+
+def transfer_timeout_rule(eng: Engine, ck: Check):
+    """R-C04-RETRY (pace): file data is written and read under TRANSFER_TIMEOUT, not under the short timeout of control messages.  With a
+    bandwidth limit on the other side one drain of the transport (64 KiB -> 16 KiB) legitimately takes tens of seconds; under the
+    10 s control-message timeout the uploader fails, the downloader sees EOF mid-file and ends FAILED with a reason, which nothing
+    retries.  Decided on the call chain send_file -> .. -> _send(data, timeout=T) and receive_file -> .. -> _read(.., timeout=T)."""
+    pc = eng.cls('PeerConnection', CONN)
+    big = cval(eng.repo, eng.func(CONN, 'PeerConnection.send_file'), ast.Name('TRANSFER_TIMEOUT', ast.Load()))
+
+    def reach(start: FuncInfo, sink: str) -> list[tuple[FuncInfo, ast.Call, Optional[ast.AST]]]:
+        """(function, sink call, timeout expression) for every call of `sink` reachable from `start` through methods of the connection"""
+        out, seen, todo = [], set(), [start]
+        while todo:
+            f = todo.pop()
+            if f in seen:
+                continue
+            seen.add(f)
+            ck.visited(f)
+            for x in calls_in(f.node):
+                if not (isinstance(x.func, ast.Attribute) and unparse(x.func.value) in ('self', 'super()')):
+                    continue
+                if x.func.attr == sink:
+                    callee = next((c.methods[sink] for c in eng.repo.mro(pc) if sink in c.methods), None)
+                    t = kw(x, 'timeout')
+                    if t is None and callee is not None:
+                        ps = [p_ for p_ in callee.params if p_ != 'self']
+                        if 'timeout' in ps and ps.index('timeout') < len(x.args):
+                            t = x.args[ps.index('timeout')]
+                    out.append((f, x, t))
+                else:
+                    todo += [c for c in eng.res.callees(x, f) if c.cls is not None and c.cls in eng.repo.mro(pc) and len(seen) < 12]
+        return out
+
+    def long_enough(f: FuncInfo, t: Optional[ast.AST]) -> bool:
+        if t is None or const(t) is None and isinstance(t, ast.Constant):
+            return True              # no timeout at all
+        if unparse(t) in ('TRANSFER_TIMEOUT', 'self.transfer_read_timeout'):
+            return True
+        v = cval(eng.repo, f, t)
+        return isinstance(v, (int, float)) and isinstance(big, (int, float)) and v >= big
+    for start_name, sink, what in (('send_file', '_send', 'written'), ('receive_file', '_read', 'read')):
+        start = pc.methods[start_name]
+        sites = reach(start, sink)
+        ck.floor(f'R-C04-RETRY.{start_name}', len(sites), 1)
+        bad = [(f.name, unparse(t)) for f, x, t in sites if not long_enough(f, t)]
+        ck.ob('R-C04-RETRY', start, start.node, f'every chunk of {start_name} is {what} under the transfer timeout (TRANSFER_TIMEOUT = {big} s), not a control-message timeout',
+              not bad, f'{bad}: with a bandwidth limit on the other side one chunk legitimately takes longer; the transfer fails with no fault at all and is not retried',
+              construct=f'{start_name} uses the transfer timeout')
+    init = pc.methods.get('__init__')
+    if init is not None:
+        a_ = init.node.args
+        dflt = dict(zip([x.arg for x in a_.args][len(a_.args) - len(a_.defaults):], a_.defaults))
+        d = dflt.get('transfer_read_timeout')
+        v = cval(eng.repo, init, d) if d is not None else None
+        ck.ob('R-C04-RETRY', init, init.node, 'the transfer read timeout of a peer connection defaults to TRANSFER_TIMEOUT', d is not None and (unparse(d) == 'TRANSFER_TIMEOUT' or
+              (isinstance(v, (int, float)) and isinstance(big, (int, float)) and v >= big)), unparse(d) if d is not None else 'no default', construct='transfer_read_timeout default')
 
 
 # ---------------------------------------------------------------------------------------------------------------------------
